@@ -35,6 +35,11 @@ def _walk_files(root, skip_dirs=(".git",)):
             yield os.path.join(d, f)
 
 
+# VERIF_COVER=1: statement-coverage build of the worker binaries (bin/coverage.py only)
+COVER = os.environ.get("VERIF_COVER") == "1"
+COVERFLAGS = ["-cover", "-covermode=atomic", "-coverpkg=github.com/gethiox/HIDI/internal/...,github.com/gethiox/HIDI/cmd/..."] if COVER else []
+
+
 def tree_hash():
     h = hashlib.sha256()
     for base, skip in ((REPO, (".git",)), (os.path.join(VERIF, "sim"), ()), (os.path.join(VERIF, "deps"), ()),
@@ -47,6 +52,8 @@ def tree_hash():
             except OSError:
                 continue
             h.update(base.encode() + b"\0" + rel.encode() + b"\0" + hashlib.sha256(data).digest())
+    if COVER:
+        h.update(b"cover")
     return h.hexdigest()[:20]
 
 
@@ -79,7 +86,7 @@ def prune_cache(keep):
     except OSError:
         return
     ents.sort(key=lambda e: os.path.getmtime(os.path.join(CACHE, e)))
-    for e in ents[:-4]:
+    for e in ents[:-8]:
         if e != keep:
             shutil.rmtree(os.path.join(CACHE, e), ignore_errors=True)
 
@@ -134,13 +141,13 @@ def build(verbose=False, need_race=True):
                         shutil.copy(os.path.join(hm, f), os.path.join(src, "cmd/hidi", "zz_verif_" + f))
             # build workers
             run([GO, "vet", "-vettool=/bin/true", "./verifsim/..."], cwd=src, what="typecheck") if False else None
-            run([GO, "test", "-vet=off", "-c", "-o", os.path.join(out, "worlds.test"), "./verifsim/worlds"], cwd=src,
+            run([GO, "test", "-vet=off"] + COVERFLAGS + ["-c", "-o", os.path.join(out, "worlds.test"), "./verifsim/worlds"], cwd=src,
                 what="build worlds")
             if need_race:
-                run([GO, "test", "-vet=off", "-race", "-c", "-o", os.path.join(out, "worlds_race.test"), "./verifsim/worlds"],
+                run([GO, "test", "-vet=off", "-race"] + COVERFLAGS + ["-c", "-o", os.path.join(out, "worlds_race.test"), "./verifsim/worlds"],
                     cwd=src, what="build worlds (-race)")
             if os.path.isdir(hm):
-                run([GO, "test", "-vet=off", "-c", "-o", os.path.join(out, "hidimain.test"), "./cmd/hidi"], cwd=src,
+                run([GO, "test", "-vet=off"] + COVERFLAGS + ["-c", "-o", os.path.join(out, "hidimain.test"), "./cmd/hidi"], cwd=src,
                     what="build hidimain")
             if os.environ.get("VERIF_KEEP_SCRATCH"):
                 keep = os.environ["VERIF_KEEP_SCRATCH"]
